@@ -245,7 +245,7 @@ package pql
 
 //@ func pql.splitQueries
 //@   use split
-//@   hide expr joincond view
+//@   hide expr exprwf joincond view
 //@   requires tabWF(source, expr)
 //@   requires allBelow(dst, len(dst), alloc()) && distinctL(dst, len(dst))
 //@   ensures @plan: result1 == nil ==> viewL(fieldheap("subquery", "name"), fieldheap("subquery", "sourceSQL"), fieldheap("subquery", "op"), fieldheap("subquery", "sort"), fieldheap("subquery", "take"), result0, len(result0)) == SplitT(mapdom(scope), mapval(scope), expr, old(viewL(fieldheap("subquery", "name"), fieldheap("subquery", "sourceSQL"), fieldheap("subquery", "op"), fieldheap("subquery", "sort"), fieldheap("subquery", "take"), dst, len(dst))))
@@ -269,17 +269,12 @@ package pql
 
 // ---------------------------------------------------------------- Compile
 
-//@ func parser.Parse
-//@   use compile
-//@   trusted the parser productions are not yet under contract: on success Parse returns well-formed statements (Appendix D of DESIGN.md)
-//@   ensures result1 == nil ==> stmtsWF(query, result0, len(result0))
-
 //@ func pql.Compile
 //@   ensures @either: (result0 != "" && result1 == nil) || (result0 == "" && result1 != nil)
 
 //@ func pql.(*CompileOptions).Compile
 //@   use compile
-//@   hide expr joincond view
+//@   hide expr exprwf joincond view
 //@   ensures @either: (result0 != "" && result1 == nil) || (result0 == "" && result1 != nil)
 //@   ensures @ok.query: expr == FQ(stmts, len(stmts)) && NQ(stmts, len(stmts)) == 1 && tabWF(source, expr)
 //@   ensures @ok.scopedom: mapdom(scope) == SD(stmts, len(stmts), atloop(2, mapdom(scope)), atloop(2, mapval(scope)))
